@@ -12,6 +12,7 @@ structure Slot where
 
 structure S where
   T : Nat := 0
+  D : Nat := 0        -- SuspectConfirmDuration
   now : Nat := 0
   seeds : List Nat := []
   slots : List (Option Slot) := []
@@ -60,6 +61,11 @@ def step (s : S) (line : String) : S × String :=
     | some t, some n =>
       ({ T := t, now := 1000, seeds := (seeds.splitOn ",").filterMap (·.toNat?), slots := List.replicate n none }, "ok")
     | _, _ => (s, "bad-op")
+  | ["cfg", t, n, seeds, d] =>
+    match t.toNat?, n.toNat?, d.toNat? with
+    | some t, some n, some d =>
+      ({ T := t, D := d, now := 1000, seeds := (seeds.splitOn ",").filterMap (·.toNat?), slots := List.replicate n none }, "ok")
+    | _, _, _ => (s, "bad-op")
   | ["start", i, via] =>
     match i.toNat? with
     | none => (s, "bad-op")
@@ -119,7 +125,7 @@ def step (s : S) (line : String) : S × String :=
     match liveNode s i with
     | some (k, sl) =>
       if sl.node.self.st = .joining then (s, "not-scheduled") else
-      let n := fdTick sl.node s.now
+      let n := fdTickD sl.node s.D s.now
       (setSlot s k { sl with node := n }, viewTok n.mem)
     | none => (s, "bad-op")
   | ["state", i] =>
